@@ -1265,9 +1265,21 @@ func (x *Exec) frameEnv(st *State) *SpecEnv {
 	if x.topC != nil && x.topC.RecvName != "" && len(x.frames) > 0 && x.frames[0].recvTV != nil {
 		env.vars[x.topC.RecvName] = *x.frames[0].recvTV
 	}
-	if x.topC != nil {
+	// the lets of the contract of the function whose frame is active (not those of the function under verification,
+	// when a callee is being executed for its frame computation or inlined)
+	var fc *FuncContract
+	for i := len(x.frames) - 1; i >= 0; i-- {
+		if x.frames[i].fi != nil {
+			fc = x.frames[i].contract
+			break
+		}
+	}
+	if fc == nil && len(x.frames) == 0 {
+		fc = x.topC
+	}
+	if fc != nil {
 		env.lets = map[string]ast.Expr{}
-		for _, l := range x.topC.Lets {
+		for _, l := range fc.Lets {
 			env.lets[l.Name] = l.Expr
 		}
 	}
